@@ -66,7 +66,7 @@ func (e *Engine) GetBuffer() (*core.Line, *core.Cursor, *core.Selection) {
 	// Non/Incremental search buffer
 	searching, _, _ := e.NonIncrementallySearching()
 
-	if e.keymap.Local() == keymap.Isearch || searching {
+	if (e.keymap.Local() == keymap.Isearch || searching) && e.isearchBuf != nil {
 		selection := core.NewSelection(e.isearchBuf, e.isearchCur)
 		return e.isearchBuf, e.isearchCur, selection
 	}
